@@ -31,7 +31,10 @@ def corpus():
         "C 0;I 0;U 0 0 0;R 0 0 0 3 1,2 0 -;X 0;C 0;I 0;U 0 0 0;R 0 0 0 4 1 0 -;Q 0 1;Q 0 2",
         # a BGP session gets a fresh id per connection: active again
         "O 0;A 0 0 1 1 0 -;Z 0;O 0;A 0 0 2 1 0 -;Q 0 1",
-    ]
+        # a Peer Down takes the peer down whatever its reason octet says (RFC 9069's 6, reserved 0, unassigned): routes from
+        # before the outage that are not re-announced stay withdrawn
+    ] + [f"C 0;I 0;U 0 0 0;U 0 3 0;R 0 0 0 3 1,2 0 -;R 0 3 0 3 1 0 -;D 0 0 {r};Q 0 1;Q 0 2;U 0 0 0;R 0 0 0 4 1 0 -;Q 0 1;Q 0 2"
+         for r in (0, 1, 2, 3, 4, 6, 7, 255)]
 
 
 ENGINES = [{"name": "pipe", "gen": gen, "corpus": corpus, "nontrivial": nontrivial, "classify": pipegen.classify, "shards": 12}]
